@@ -1109,16 +1109,28 @@ class ExecComp(ExplicitComponent):
                 # solve with complex input value
                 self._exec()
 
+                dense_rows = []
                 for u in out_names:
                     if (u, inp) in partials:
                         subval, subval_is_scalar = vdict[u]
-                        if subval_is_scalar:
+                        if psize > 1 and (subval_is_scalar or subval.size == 1):
+                            # a size 1 output of an array input has a dense row, not a diagonal
+                            dense_rows.append(u)
+                        elif subval_is_scalar:
                             partials[u, inp] = imag(subval * inv_stepsize)
                         else:
                             partials[u, inp] = imag(subval * inv_stepsize).ravel()
 
                 # restore old input value
                 ival -= step
+
+                if dense_rows:
+                    for i, idx in enumerate(array_idx_iter(ival.shape)):
+                        ival[idx] += step
+                        self._exec()
+                        for u in dense_rows:
+                            partials[u, inp][:, i] = imag(vdict[u][0] * inv_stepsize).flat
+                        ival[idx] -= step
             else:
                 for i, idx in enumerate(array_idx_iter(ival.shape)):
                     # set a complex input value
